@@ -119,28 +119,35 @@ fn subj_scn(kind: SubjKind, producers: Vec<Vec<i64>>, roles: Vec<Role>, q: Optio
         if !recs[i].terminals().is_empty() {
           v.push(viol("unexpected-terminal", format!("{:?} observer got {}", r, recs[i].short())));
         }
+        // the positional requirements are judged on the sequence with repeated deliveries
+        // removed: a duplicate is reported as such (above), never as a loss
+        let got_all = got.clone();
+        let got = first_occurrences(&got);
         for p in &producers {
           let mine = restricted(&got, p);
           match r {
             Role::Resident => {
               if &mine != p {
-                v.push(viol("lost-item", format!("resident observer got {:?}, producer pushed {:?}", got, p)));
+                v.push(viol("lost-item", format!("resident observer got {:?}, producer pushed {:?}", got_all, p)));
               }
             }
             Role::Leaving => {
               if !p.starts_with(&mine) {
-                v.push(viol("gap-in-prefix", format!("unsubscribing observer got {:?}, not a prefix of {:?}", got, p)));
+                v.push(viol("gap-in-prefix", format!("unsubscribing observer got {:?}, not a prefix of {:?}", got_all, p)));
               }
             }
             Role::Late => match kind {
               SubjKind::Replay => {
-                if &mine != p {
-                  v.push(viol("replay-late-subscriber-incomplete", format!("late ReplaySubject subscriber got {:?}, pushed {:?}", got, p)));
+                let missing: Vec<i64> = p.iter().filter(|x| !mine.contains(x)).cloned().collect();
+                if !missing.is_empty() {
+                  v.push(viol("replay-late-subscriber-item-lost", format!("late ReplaySubject subscriber got {:?}, pushed {:?}: {:?} never reached it", got_all, p, missing)));
+                } else if &mine != p {
+                  v.push(viol("replay-late-subscriber-live-item-before-history", format!("late ReplaySubject subscriber got {:?}, pushed {:?}", got_all, p)));
                 }
               }
               _ => {
                 if !p.ends_with(&mine) {
-                  v.push(viol("gap-in-suffix", format!("late subscriber got {:?}, not a gap-free suffix of {:?}", got, p)));
+                  v.push(viol("gap-in-suffix", format!("late subscriber got {:?}, not a gap-free suffix of {:?}", got_all, p)));
                 }
               }
             },
@@ -155,14 +162,14 @@ fn subj_scn(kind: SubjKind, producers: Vec<Vec<i64>>, roles: Vec<Role>, q: Optio
             if *r == Role::Late {
               if let (Some(ps), Some(sr)) = (ps, stamps.get(&format!("subscribed:{}", i))) {
                 if ps > sr && !got.contains(x) {
-                  v.push(viol("lost-item-pushed-after-subscribe-returned", format!("late observer got {:?}; push of {} started at {}, its subscribe had returned at {}", got, x, ps, sr)));
+                  v.push(viol("lost-item-pushed-after-subscribe-returned", format!("late observer got {:?}; push of {} started at {}, its subscribe had returned at {}", got_all, x, ps, sr)));
                 }
               }
             }
             if *r == Role::Leaving {
               if let (Some(pe), Some(uc)) = (pe, stamps.get(&format!("unsubscribing:{}", i))) {
                 if pe < uc && !got.contains(x) {
-                  v.push(viol("lost-item-pushed-before-unsubscribe", format!("leaving observer got {:?}; push of {} had returned at {}, unsubscribe was called at {}", got, x, pe, uc)));
+                  v.push(viol("lost-item-pushed-before-unsubscribe", format!("leaving observer got {:?}; push of {} had returned at {}, unsubscribe was called at {}", got_all, x, pe, uc)));
                 }
               }
             }
@@ -175,7 +182,7 @@ fn subj_scn(kind: SubjKind, producers: Vec<Vec<i64>>, roles: Vec<Role>, q: Optio
             let mut full = vec![0i64];
             full.extend(producers[0].iter());
             if got.is_empty() || !full.ends_with(&got) {
-              v.push(viol("behavior-late-subscriber-gap", format!("late BehaviorSubject subscriber got {:?}, want a non-empty suffix of {:?}", got, full)));
+              v.push(viol("behavior-late-subscriber-gap", format!("late BehaviorSubject subscriber got {:?}, want a non-empty suffix of {:?}", got_all, full)));
             }
           } else if got.is_empty() {
             v.push(viol("behavior-late-subscriber-gap", "late BehaviorSubject subscriber got nothing".into()));
@@ -186,6 +193,16 @@ fn subj_scn(kind: SubjKind, producers: Vec<Vec<i64>>, roles: Vec<Role>, q: Optio
     });
     (body, check)
   })
+}
+
+fn first_occurrences(v: &[i64]) -> Vec<i64> {
+  let mut out: Vec<i64> = vec![];
+  for x in v {
+    if !out.contains(x) {
+      out.push(*x);
+    }
+  }
+  out
 }
 
 pub fn scenarios() -> Vec<Scn> {
